@@ -82,6 +82,9 @@ func (c *FnCtx) implementsTerm(tag *Term, iface types.Type) *Term {
 	c.decls.Fun(name, []string{SInt}, SBool)
 	// facts for all known concrete types
 	for _, kt := range c.eng.knownTypes() {
+		if mentionsTypeParam(kt) {
+			continue // unknown until instantiated: leave uninterpreted
+		}
 		id := c.eng.typeTag(kt)
 		c.addFact(Eq(App(name, SBool, IntT(int64(id))), BoolT(types.Implements(kt, it))))
 	}
@@ -1103,4 +1106,25 @@ func pkgOf(fn *ssa.Function) *types.Package {
 		return fn.Object().Pkg()
 	}
 	return nil
+}
+
+func mentionsTypeParam(t types.Type) bool {
+	switch u := t.(type) {
+	case *types.TypeParam:
+		return true
+	case *types.Pointer:
+		return mentionsTypeParam(u.Elem())
+	case *types.Slice:
+		return mentionsTypeParam(u.Elem())
+	case *types.Named:
+		if ta := u.TypeArgs(); ta != nil {
+			for i := 0; i < ta.Len(); i++ {
+				if mentionsTypeParam(ta.At(i)) {
+					return true
+				}
+			}
+		}
+		return u.TypeParams().Len() > 0 && u.TypeArgs().Len() == 0
+	}
+	return false
 }
